@@ -474,6 +474,90 @@ def r8(led, rid, ctx):
     led.floor(rid, "constraint impls compared", n, 9)
 
 
+def r10(led, rid, ctx):
+    """LINFORM: the arithmetic constraint builders mean what their names say — decided by abstract
+    evaluation in the linear-form domain on a 5-value window"""
+    import itertools
+    from ..linform import Evaluator, Undecided, lin, holds_atom
+    lib = ctx.lib
+    ev = Evaluator(lib)
+    a, b, c = lin("a"), lin("b"), lin("c")
+    W = range(-2, 3)
+    ADT = {"LE": "Inequality", "EQ": "EqualConstraint", "NE": "NotEqualConstraint"}
+
+    def leafs(atom):
+        if atom[1] in ADT:
+            f = lib.method(ADT[atom[1]], "post", "Constraint")
+            return ev.posted(f, atom)
+        return [atom]
+
+    def builder(suffix):
+        fs = [f for d, f in lib.fns.items() if d.endswith("constraints::arithmetic::" + suffix) and f.kind == "Fn"]
+        if len(fs) != 1:
+            raise AnchorMissing("constraint builder " + suffix)
+        return fs[0]
+    cases = [
+        ("inequality::less_than_or_equals", lambda r: {1: ("list", [a, b]), 2: ("int", r)}, lambda s, r: s["a"] + s["b"] <= r, "a + b <= r"),
+        ("inequality::binary_less_than_or_equals", lambda r: {1: a, 2: b}, lambda s, r: s["a"] <= s["b"], "a <= b"),
+        ("inequality::binary_less_than", lambda r: {1: a, 2: b}, lambda s, r: s["a"] < s["b"], "a < b"),
+        ("equality::equals", lambda r: {1: ("list", [a, b]), 2: ("int", r)}, lambda s, r: s["a"] + s["b"] == r, "a + b = r"),
+        ("equality::binary_equals", lambda r: {1: a, 2: b}, lambda s, r: s["a"] == s["b"], "a = b"),
+        ("equality::not_equals", lambda r: {1: ("list", [a, b]), 2: ("int", r)}, lambda s, r: s["a"] + s["b"] != r, "a + b != r"),
+        ("equality::binary_not_equals", lambda r: {1: a, 2: b}, lambda s, r: s["a"] != s["b"], "a != b"),
+        ("plus", lambda r: {1: a, 2: b, 3: c}, lambda s, r: s["a"] + s["b"] == s["c"], "a + b = c"),
+        ("maximum", lambda r: {1: ("list", [a, b]), 2: c}, lambda s, r: max(s["a"], s["b"]) == s["c"], "max(a, b) = c"),
+        ("minimum", lambda r: {1: ("list", [a, b]), 2: c}, lambda s, r: min(s["a"], s["b"]) == s["c"], "min(a, b) = c"),
+    ]
+    n = 0
+    for suffix, mkenv, spec, text in cases:
+        f = builder(suffix)
+        bad = None
+        try:
+            for r in W:
+                v = ev.ev(ev.single_path(f).ret, mkenv(r))
+                if v[0] != "atom":
+                    raise Undecided("returns a %s" % v[0])
+                atoms = leafs(v)
+                for sa, sb, sc in itertools.product(W, W, W):
+                    sg = {"a": sa, "b": sb, "c": sc}
+                    got = all(holds_atom(x, sg) for x in atoms)
+                    if got != spec(sg, r):
+                        bad = ("%s a=%d, b=%d, c=%d%s" % ("accepts" if got else "rejects", sa, sb, sc,
+                                                          ", r=%d" % r if "r" in text else ""))
+                        break
+                if bad:
+                    break
+        except Undecided as u:
+            bad = "cannot be evaluated in the linear-form domain (%s)" % u
+        n += 1
+        led.check(bad is None, rid, "builder:%s" % suffix.rsplit("::", 1)[-1], f.span, "≡ %s" % text,
+                  "constraints::%s should mean `%s` but the constraints it builds %s" % (suffix.rsplit("::", 1)[-1], text, bad))
+    # negation of each arithmetic constraint type is the exact complement
+    for kind, adt in ADT.items():
+        bad = None
+        f = lib.method(adt, "negation", "NegatableConstraint")
+        try:
+            for r in W:
+                x = ("atom", kind, [a, lin("b", 2)], ("int", r))
+                y = ev.ev(ev.single_path(f).ret, {1: x})
+                if y[0] != "atom":
+                    raise Undecided("returns a %s" % y[0])
+                ax, ay = leafs(x), leafs(y)
+                for sa, sb in itertools.product(W, W):
+                    sg = {"a": sa, "b": sb}
+                    if all(holds_atom(t, sg) for t in ax) == all(holds_atom(t, sg) for t in ay):
+                        bad = "and the constraint itself agree on a=%d, b=%d (rhs %d)" % (sa, sb, r)
+                        break
+                if bad:
+                    break
+        except Undecided as u:
+            bad = "cannot be evaluated in the linear-form domain (%s)" % u
+        n += 1
+        led.check(bad is None, rid, "negation:%s" % adt, f.span, "exact complement",
+                  "%s::negation %s: posting the negation does not admit exactly the complement" % (adt, bad))
+    led.floor(rid, "builders and negations", n, 13)
+
+
 def run(ctx, led):
     run_rule(led, "R1", "the wrapped propagator runs only under r true, on a reified context, and its "
              "conflict gets [r = true]", r1, ctx)
@@ -490,3 +574,4 @@ def run(ctx, led):
     run_rule(led, "R8", "post and implied_by of one constraint build the same sub-constraints", r8, ctx)
     from . import predrules
     run_rule(led, "R9", "Predicate negation is the exact complement (shared with C02-U9)", predrules.negation_exact, ctx)
+    run_rule(led, "R10", "LINFORM: arithmetic constraint builders and their negations mean what they say (abstract evaluation in the linear-form domain, 5-value window)", r10, ctx)
